@@ -444,13 +444,14 @@ func (w *wbuild) Drive(s *simrt.Sched, out *RunResult) {
 				}
 			}
 		case "damage":
-			note := w.damageCache(m)
+			drift := w.g.Features["extfail"] && chance(c, 1, 2, "drift-after-damage")
+			note := w.damageCache(m, drift)
 			for k := range cm.strict {
 				cm.unc[k] = true
 			}
 			cs.History = append(cs.History, HistOp{Op: "cache-damage", Note: note})
 			shapeParts = append(shapeParts, "damage")
-			if w.g.Features["extfail"] && chance(c, 1, 2, "drift-after-damage") {
+			if drift {
 				// place the interesting follow-up right after the loss: a restored dependency whose
 				// blobs may be gone now misbehaves when executed again (slow beyond its timeout /
 				// failing), and one of its dependants changed, so that it needs those outputs
@@ -462,6 +463,15 @@ func (w *wbuild) Drive(s *simrt.Sched, out *RunResult) {
 						}
 					}
 				}
+				var timed [][2]string
+				for _, pr := range cands {
+					if w.U.Specs[pr[0]].TimeoutMS > 0 {
+						timed = append(timed, pr)
+					}
+				}
+				if len(timed) > 0 && chance(c, 3, 4, "drift-timed") {
+					cands = timed
+				}
 				if len(cands) > 0 {
 					pr := cands[c.Choose(len(cands), "drift-pair")]
 					snapshots = append(snapshots, w.U.Clone())
@@ -471,6 +481,7 @@ func (w *wbuild) Drive(s *simrt.Sched, out *RunResult) {
 						kind = "slow"
 					}
 					nu.Ext["fail_"+pr[0]] = kind
+					simrt.Probe("drift-after-damage:" + kind)
 					nu.Specs[pr[1]].Ver++
 					ed := Edit{Op: "drift-after-damage", Target: pr[0], Detail: kind + "; command of " + pr[1] + " edited"}
 					w.mu.Lock()
@@ -1001,6 +1012,12 @@ func (w *wbuild) checkBuild(res *InvResult, req BuildReq, opts InvOpts, cm *cach
 				report(prop, "dependency-outputs-not-current", "command-read-missing-or-partial", fmt.Sprintf("the command of %s found outputs of %v missing or different from anything that dependency ever produced", l, bad))
 			}
 		}
+		if ran && verdict != "must" && opts.LoadOutputs == "minimal" {
+			simrt.Probe("minimal-rerun-of-restored-dependency")
+			if extFail0[l] == "slow" {
+				simrt.Probe("minimal-rerun-of-restored-dependency-exceeding-timeout")
+			}
+		}
 		if ran || verdict == "must" {
 			if willFail {
 				status[l] = "failed"
@@ -1063,7 +1080,9 @@ func (w *wbuild) checkBuild(res *InvResult, req BuildReq, opts InvOpts, cm *cach
 		}
 		return
 	}
-	if opts.FailFast && anyFail && !faulted && !signalled {
+	if opts.FailFast && anyFail && !faulted && !signalled && res.ExitCode != 0 {
+		// (an invocation that exits 0 although a target fails is reported below as
+		// failure-reported-as-success: grog saw no failure, so there was nothing to stop at)
 		// Simulated time only advances when every task is blocked, so the walk is cancelled at
 		// the very simulated instant the first failure happens, whatever the schedule: a command
 		// forked at a later instant, or one that keeps running and completes after it, was not
